@@ -767,7 +767,8 @@ def dyn_params(P, tf):
 # --- gyration tensor descriptors
 def gyr_run(A, P, tmp, aux):
     from PyMatterSim.static.shape import gyration_tensor
-    return {"shape": np.array(gyration_tensor(A["pos"][0].copy()), dtype=float)}
+    z = np.array(gyration_tensor(A["pos"][0].copy()), dtype=complex)     # np.linalg.eig hands back a complex dtype
+    return {"shape": z.real, "shape_imag": z.imag}
 
 
 def gyr_guard(A, P):
